@@ -9,6 +9,7 @@ import jar as _jar
 import apk as _apk
 import cab as _cab
 import appx as _appx
+import pgp as _pgp
 _c09 = importlib.import_module("props.c09")
 _c19 = importlib.import_module("props.c19")
 
@@ -93,9 +94,23 @@ class _AppxAdapter:
         return _appx.predicate("C05", op, il, mres, tag)
 
 
+class _PgpAdapter:
+    nontrivial = staticmethod(_pgp.nontrivial)
+    branch = staticmethod(_pgp.branch)
+    matches_known = staticmethod(_pgp.matches_known)
+
+    @staticmethod
+    def agree(op, il, mres, tag):
+        return _pgp.equiv(op, il, mres)
+
+    @staticmethod
+    def predicate(op, il, mres, tag):
+        return _pgp.predicate("C05", op, il, mres, tag)
+
+
 def _m(op):
     t = op.split(" ", 1)[0]
-    return {"PE": None, "JAR": _JarAdapter, "APK": _ApkAdapter, "APPX": _AppxAdapter, "CAB": _CabAdapter, "C09": _c09, "C19": _c19}.get(t)
+    return {"PE": None, "JAR": _JarAdapter, "APK": _ApkAdapter, "APPX": _AppxAdapter, "PGP": _PgpAdapter, "CAB": _CabAdapter, "C09": _c09, "C19": _c19}.get(t)
 
 
 def canon_model(op, mres):
@@ -105,6 +120,8 @@ def canon_model(op, mres):
         return _msi.canon_model(op, mres)
     if op.startswith("APPX "):
         return _appx.canon_model(op, mres)
+    if op.startswith("PGP "):
+        return _pgp.canon_model(op, mres)
     if op.startswith("CAB "):
         return _cab.canon_model(op, mres)
     return _pe.canon_model(op, mres) if op.startswith("PE ") else mres
